@@ -218,4 +218,17 @@ example : ∀ op ∈ [Op.r (.new 4 90), .r (.put [1] 5 7), .r (.get [1] 5), .b (
   intro op h; simp at h
   rcases h with rfl | rfl | rfl | rfl | rfl | rfl | rfl | rfl <;> simp [Supported, WF, ROp.WF, BOp.WF, SOp.WF]
 
+/-! ## Where the full statement fails (both reproduced on the real code by the check) -/
+
+/-- ids are kept modulo 2^32: after `Add(2^32+5)`, `Contains(5)` is true (known finding
+    `idset-id-truncated-to-32-bits`) -/
+theorem C36_idset_full_fails :
+    holdsOn (run init [.s (.add 0 (2 ^ 32 + 5)), .s (.has 0 5)]) = false := by decide
+
+/-- `DeletePrefix` leaves an empty node behind and `Minimum` walks into it: the tree still
+    holds "b" but reports no minimum (known finding `radix-minmax-after-deleteprefix`) -/
+theorem C36_radix_full_fails :
+    holdsOn (run init [.t .new, .t (.ins [97] 1), .t (.ins [98] 2), .t (.del [97]), .t .min]) = false := by
+  decide
+
 end Influx.Props.C36
